@@ -273,7 +273,12 @@ class Evaluator:
             left = self._eval(e.left, env)
             for op, right_e in zip(e.ops, e.comparators):
                 right = self._eval(right_e, env)
-                if not self._compare(op, left, right, e):
+                r = self._compare(op, left, right, e)
+                if isinstance(r, Vec):
+                    if len(e.ops) != 1:
+                        raise Licence(f"{self.f.loc(e)}: chained comparison on vectors")
+                    return r
+                if not r:
                     return False
                 left = right
             return True
@@ -311,6 +316,8 @@ class Evaluator:
                 if c is not None:
                     return ExcClass(c.name)
             base = self._eval(e.value, env)
+            if isinstance(base, Vec) and e.attr == "size":
+                return len(base)
             if isinstance(base, TypeOf) and e.attr == "__name__":
                 return base.name
             if isinstance(base, Obj):
@@ -384,7 +391,13 @@ class Evaluator:
             return a + b
         raise Licence(f"{self.f.loc(node)}: arithmetic {type(op).__name__} on abstracted inputs ({a!r}, {b!r}) - the order-class table is no longer sound")
 
-    def _compare(self, op: ast.cmpop, a: Any, b: Any, node: ast.AST) -> bool:
+    def _compare(self, op: ast.cmpop, a: Any, b: Any, node: ast.AST) -> Any:
+        if isinstance(a, Vec) and not isinstance(b, (list, tuple, Vec)):
+            return Vec([self._compare(op, x, b, node) for x in a])
+        if isinstance(b, Vec) and not isinstance(a, (list, tuple, Vec)):
+            return Vec([self._compare(op, a, x, node) for x in b])
+        if isinstance(a, Vec) and isinstance(b, Vec) and len(a) == len(b):
+            return Vec([self._compare(op, x, y, node) for x, y in zip(a, b)])
         if isinstance(op, ast.Is):
             return self._is(a, b, node)
         if isinstance(op, ast.IsNot):
@@ -432,6 +445,25 @@ class Evaluator:
                 return r
         d = dotted(e.func)
         q = self.prog.qualify(self.f.module, d) if d else None
+        if q in ("numpy.asarray", "numpy.array", "numpy.atleast_1d") and len(args) == 1 and isinstance(args[0], (list, tuple)) and all(isinstance(x, (int, Fraction, bool)) for x in args[0]):
+            return Vec(args[0])
+        if q in ("numpy.flatnonzero",) and len(args) == 1 and isinstance(args[0], Vec):
+            return Vec([i for i, x in enumerate(args[0]) if x])
+        if q in ("numpy.nonzero", "numpy.where") and len(args) == 1 and isinstance(args[0], Vec):
+            return (Vec([i for i, x in enumerate(args[0]) if x]),)
+        if q in ("numpy.any", "any") and len(args) == 1 and isinstance(args[0], (Vec, list)):
+            return any(bool(x) for x in args[0])
+        if q in ("numpy.all", "all") and len(args) == 1 and isinstance(args[0], (Vec, list)):
+            return all(bool(x) for x in args[0])
+        if q == "int" and len(args) == 1 and isinstance(args[0], (int, Fraction)) and not isinstance(args[0], bool):
+            return int(args[0])
+        if isinstance(e.func, ast.Attribute) and e.func.attr in ("any", "all") and not e.args:
+            try:
+                recv0 = self._eval(e.func.value, env)
+            except Licence:
+                recv0 = None
+            if isinstance(recv0, Vec):
+                return any(recv0) if e.func.attr == "any" else all(recv0)
         if q == "len" and len(args) == 1:
             if isinstance(args[0], (list, tuple, str, dict)):
                 return len(args[0])
@@ -551,6 +583,10 @@ class Evaluator:
                 finally:
                     self.f = saved
         return env
+
+
+class Vec(list):
+    """A one-dimensional numeric/boolean vector (element-wise comparisons)."""
 
 
 class Obj:
